@@ -198,13 +198,30 @@ func Body(r *rand.Rand, addr uint64, length int, nregs int) Ins {
 		ld := expr.NewMemLoad(expr.NewKey(m), expr.NewBinary(expr.Add, rl(ar), c8(off), 8), w)
 		in.Effects = []expr.Effect{expr.NewRegStore(ld, expr.NewKey(rd), 8)}
 		in.Text = fmt.Sprintf("ld%d %s, %s[%s+%d]", w, rd, m, ar, off)
-	case k < 80: // store
+	case k < 80 && k >= 65: // store
 		rs, m, ar := reg(), Mems[r.Intn(2)], AddrRegs[r.Intn(2)]
 		off := uint64(r.Intn(24))
 		w := expr.Width([]int{1, 2, 4, 8}[r.Intn(4)])
 		in.Effects = []expr.Effect{expr.NewMemStore(rl(rs), expr.NewKey(m), expr.NewBinary(expr.Add, rl(ar), c8(off), 8), w)}
 		in.Text = fmt.Sprintf("st%d %s[%s+%d], %s", w, m, ar, off, rs)
-	case k < 84: // load + store (atomic-like), two effects
+	case k < 82 && k >= 80: // two stores by one instruction: the same space twice, or both spaces
+		rs, ar := reg(), AddrRegs[r.Intn(2)]
+		m1 := Mems[r.Intn(2)]
+		m2 := m1
+		if r.Intn(2) == 0 {
+			m2 = Mems[r.Intn(2)]
+		}
+		o1, o2 := uint64(r.Intn(24)), uint64(r.Intn(24))
+		w := expr.Width([]int{1, 2, 4, 8}[r.Intn(4)])
+		in.Effects = []expr.Effect{
+			expr.NewMemStore(rl(rs), expr.NewKey(m1), expr.NewBinary(expr.Add, rl(ar), c8(o1), 8), w),
+			expr.NewMemStore(rl(rs), expr.NewKey(m2), expr.NewBinary(expr.Add, rl(ar), c8(o2), 8), w)}
+		in.Text = fmt.Sprintf("stp%d %s[%s+%d], %s[%s+%d], %s", w, m1, ar, o1, m2, ar, o2, rs)
+	case k < 84 && k >= 82: // two register writes by one instruction (values from the pre-state)
+		a, b := reg(), reg()
+		in.Effects = []expr.Effect{expr.NewRegStore(rl(b), expr.NewKey(a), 8), expr.NewRegStore(rl(a), expr.NewKey(b), 8)}
+		in.Text = fmt.Sprintf("swap %s, %s", a, b)
+	case k < 88 && k >= 84: // load + store (atomic-like), two effects
 		rd, rs, m, ar := reg(), reg(), Mems[r.Intn(2)], AddrRegs[r.Intn(2)]
 		a := expr.NewBinary(expr.Add, rl(ar), c8(uint64(r.Intn(3))*8), 8)
 		ld := expr.NewMemLoad(expr.NewKey(m), a, 8)
@@ -214,13 +231,13 @@ func Body(r *rand.Rand, addr uint64, length int, nregs int) Ins {
 		if r.Intn(2) == 0 {
 			in.Type = model.TypeMemOrder
 		}
-	case k < 88: // memory ordering without effects
+	case k < 90 && k >= 88: // memory ordering without effects
 		in.Type = model.TypeMemOrder
 		in.Text = "fence"
-	case k < 91:
+	case k < 92 && k >= 90:
 		in.Type = model.TypeSyscall
 		in.Text = "syscall"
-	case k < 94:
+	case k < 94 && k >= 92:
 		in.Type = model.TypeCPUStateChange
 		rd := reg()
 		in.Effects = []expr.Effect{expr.NewRegStore(rl(rd), "csr", 8)}
